@@ -711,6 +711,14 @@ def store(ex, base, idx, v, st, ctx, node=None):
     """Returns IN_PLACE (heap mutated) or the new value to assign back to the base expression."""
     if isinstance(base, Opaque):
         return Opaque("store")
+    whole = idx is Ellipsis or (isinstance(idx, slice) and idx == slice(None))
+    if whole and isinstance(v, (int, float, Fraction)) and not isinstance(v, bool) and v == 0 and isinstance(base, (LinComb, BlockVec, ConcVec)):
+        # `x[...] = 0` / `x[:] = 0`: every entry overwritten -- the zero vector of the same layout
+        if isinstance(base, LinComb):
+            return LinComb.zero()
+        if isinstance(base, BlockVec):
+            return BlockVec([LinComb.zero() for _ in base.blocks])
+        return ConcVec([0 for _ in base.items])
     if isinstance(base, ConcVec):
         if isinstance(idx, int):
             items = list(base.items)
